@@ -157,8 +157,18 @@ def run_case(case, K=150):
 
             def one_draw():
                 nonlocal max_rep
-                out = s.posterior(equal_weight=True, equal_weight_boost=boost,
-                                  return_blobs=has_blobs)
+                try:
+                    out = s.posterior(equal_weight=True,
+                                      equal_weight_boost=boost,
+                                      return_blobs=has_blobs)
+                except Exception as e:
+                    # the weighted posterior of the same sampler, with the
+                    # same arguments, was returned above
+                    res.viol('equal-weight-raises', type(e).__name__,
+                             'posterior(equal_weight=True, boost %r, '
+                             'return_blobs=%r) raised %r where the weighted '
+                             'posterior is returned' % (boost, has_blobs, e))
+                    return None
                 keys1 = posterior_key(out)
                 c = decode(keys0, keys1)
                 if c is None:
